@@ -68,33 +68,46 @@ variable {W I : Type} (S : MechSys W I)
 def evOf (s : Server W I) (line : Bytes) (o : Out W I) : Ev :=
   ⟨line, s.state, s.rejects, o.mech, o.rejected, o.res, o.sent⟩
 
+/-- `transport.loseConnection()` -/
+def Proto.close (p : Proto W I) : Proto W I := { p with closed := true }
+
+/-- an exception escapes `dataReceived` -/
+def Proto.crash (p : Proto W I) : Proto W I := { p with crashed := true }
+
+/-- The authenticator handled `l` with result `o`: its new state, what it wrote, the ghost log. -/
+def Proto.handled (p : Proto W I) (l : Bytes) (o : Out W I) : Proto W I :=
+  { p with srv := o.srv, sent := p.sent ++ o.sent, log := p.log ++ [evOf p.srv l o] }
+
 /-- `for lineno, line in enumerate(lines):` -/
 def lineLoop (p : Proto W I) : List Bytes → Proto W I × Kind
   | [] => (p, .done)
   | l :: ls =>
     if p.closed then (p, .ret)
-    else if l.length > maxAuthLength then ({ p with closed := true }, .ret)
+    else if l.length > maxAuthLength then (p.close, .ret)
     else
       let o := handle S p.srv l
-      let p1 : Proto W I := { p with srv := o.srv, sent := p.sent ++ o.sent, log := p.log ++ [evOf p.srv l o] }
       match o.res with
-      | .crash => ({ p1 with crashed := true }, .ret)
-      | .failed => lineLoop { p1 with closed := true } ls
-      | .ok => if o.srv.authenticated then (p1, .success ls) else lineLoop p1 ls
+      | .crash => ((p.handled l o).crash, .ret)
+      | .failed => lineLoop (p.handled l o).close ls
+      | .ok => if o.srv.authenticated then (p.handled l o, .success ls) else lineLoop (p.handled l o) ls
 
 /-- The remainder limit of the `else:` clause. -/
 def remainderLimit : Nat := maxAuthLength + authDelimiter.length - remainderSlack
 
+/-- `self._buffer = ...` -/
+def Proto.setBuf (p : Proto W I) (r : Bytes) : Proto W I := { p with buffer := r }
+
+/-- The hand-off after the authenticator reported success: `guid`, `setAuthenticationSucceeded()`, and
+the re-joined rest of the read goes to the binary branch. -/
+def Proto.handOff (q : Proto W I) (rest : Bytes) : Proto W I :=
+  { q with guid := q.srv.guid, authenticated := true, buffer := [], binary := q.binary ++ rest }
+
 /-- Lines 162-198 of protocol.py. -/
 def recvLines (p : Proto W I) (data : Bytes) : Proto W I :=
-  let sp := splitCRLF (p.buffer ++ data)
-  let r := lineLoop S { p with buffer := sp.2 } sp.1
-  match r.2 with
-  | .done => if r.1.buffer.length > remainderLimit then { r.1 with closed := true } else r.1
-  | .ret => r.1
-  | .success rest =>
-    { r.1 with guid := r.1.srv.guid, authenticated := true, buffer := [],
-               binary := r.1.binary ++ joinCRLF rest sp.2 }
+  match lineLoop S (p.setBuf (splitCRLF (p.buffer ++ data)).2) (splitCRLF (p.buffer ++ data)).1 with
+  | (q, .done) => if q.buffer.length > remainderLimit then q.close else q
+  | (q, .ret) => q
+  | (q, .success rest) => q.handOff (joinCRLF rest (splitCRLF (p.buffer ++ data)).2)
 
 /-- `dataReceived(data)` of a server protocol.  A crashed connection receives nothing more. -/
 def recv (p : Proto W I) (data : Bytes) : Proto W I :=
@@ -102,8 +115,8 @@ def recv (p : Proto W I) (data : Bytes) : Proto W I :=
   else if p.authenticated then { p with binary := p.binary ++ data }
   else if p.firstByte then
     match data with
-    | [] => { p with crashed := true }                  -- data[0]: IndexError
-    | b :: d => if b ≠ 0 then { p with closed := true } else recvLines S { p with firstByte := false } d
+    | [] => p.crash                                     -- data[0]: IndexError
+    | b :: d => if b ≠ 0 then p.close else recvLines S { p with firstByte := false } d
   else recvLines S p data
 
 /-- A sequence of reads. -/
